@@ -152,7 +152,7 @@ fn is_fallback_shape(bytes: &[u8], s: &NormalizerSettings, ms: &CharsetMatches) 
             allowed.push(d);
         }
     }
-    if let (Some(e), _) = hooks::identify_sig_or_bom(bytes) {
+    if let (Some(e), _) = sig_of(bytes) {
         allowed.push(e);
     }
     allowed.contains(&m.encoding().to_string()) && !m.has_submatch()
@@ -238,7 +238,7 @@ pub fn check_c07(bytes: &[u8], s: &NormalizerSettings, ms: &CharsetMatches) -> V
     if bytes.is_empty() {
         return out;
     }
-    let sig = hooks::identify_sig_or_bom(bytes);
+    let sig = sig_of(bytes);
     let fb = is_fallback_shape(bytes, s, ms);
     for m in ms.iter() {
         let e = m.encoding();
@@ -364,6 +364,18 @@ pub fn check_c10(bytes: &[u8], _s: &NormalizerSettings, ms: &CharsetMatches) -> 
         }
     }
     out
+}
+
+/// byte-order marks / signatures as C07 names them (UTF-8, UTF-16LE/BE, GB18030) -- the properties' own list, not the
+/// library's table (the marks are pairwise non-prefix, so the order does not matter)
+pub fn sig_of(bytes: &[u8]) -> (Option<String>, Option<&'static [u8]>) {
+    const MARKS: [(&str, &[u8]); 4] = [("utf-8", b"\xef\xbb\xbf"), ("gb18030", b"\x84\x31\x95\x33"), ("utf-16le", b"\xff\xfe"), ("utf-16be", b"\xfe\xff")];
+    for (e, m) in MARKS {
+        if bytes.starts_with(m) {
+            return (Some(e.to_string()), Some(m));
+        }
+    }
+    (None, None)
 }
 
 /// the encodings the property ties to one language -- the property's own list, NOT the library's table
@@ -502,7 +514,7 @@ pub enum Alone {
 }
 
 pub fn alone(bytes: &[u8], s: &NormalizerSettings, enc: &str) -> Alone {
-    let sig = hooks::identify_sig_or_bom(bytes);
+    let sig = sig_of(bytes);
     if (enc == "utf-16le" || enc == "utf-16be") && sig.0.as_deref() != Some(enc) {
         return Alone::NotProbed;
     }
@@ -537,7 +549,7 @@ pub fn probing_order(bytes: &[u8], s: &NormalizerSettings) -> (Vec<String>, Vec<
             prio.push(d);
         }
     }
-    if let (Some(e), _) = hooks::identify_sig_or_bom(bytes) {
+    if let (Some(e), _) = sig_of(bytes) {
         prio.push(e);
     }
     prio.push("ascii".into());
@@ -558,7 +570,7 @@ pub fn reconstruct(bytes: &[u8], s: &NormalizerSettings) -> (Vec<String>, Vec<St
     let inc: Vec<String> = s.include_encodings.iter().filter_map(|x| iana_name(x).map(|y| y.to_string())).collect();
     let exc: Vec<String> = s.exclude_encodings.iter().filter_map(|x| iana_name(x).map(|y| y.to_string())).collect();
     let (prio, order) = probing_order(bytes, s);
-    let sig = hooks::identify_sig_or_bom(bytes).0;
+    let sig = sig_of(bytes).0;
     let mut soft: Vec<String> = vec![];
     let mut accepted: Vec<String> = vec![];
     let mut exit_on: Option<String> = None;
@@ -719,7 +731,7 @@ pub fn check_c13_text(text: &str, s: &NormalizerSettings, with_bom: bool) -> (Ve
 }
 
 fn identify_mark(bytes: &[u8]) -> Option<String> {
-    hooks::identify_sig_or_bom(bytes).0
+    sig_of(bytes).0
 }
 
 /// C19 at the API level: an input analysed as a single chunk, one encoding probed alone, swept over
